@@ -2,6 +2,7 @@
 //! Every subcommand reads NDJSON cases (emitted by TLC or by the seeded drivers in /verif/lib) on stdin
 //! and prints one NDJSON verdict/observation per case on stdout.  Panics of the code under test are data.
 mod codegen;
+mod negotiate;
 mod util;
 
 fn main() {
@@ -10,6 +11,7 @@ fn main() {
     let rest = &args[2.min(args.len())..];
     let code = match cmd {
         "codegen-safe" => codegen::codegen_safe(rest),
+        "negotiate" => negotiate::negotiate(rest),
         _ => {
             eprintln!("unknown subcommand {cmd:?}");
             2
